@@ -24,6 +24,7 @@ func init() {
 	register(&Family{Name: "c06", Gen: func(seed uint64, tier string) *world.Scenario { return genCurves("c06", seed, false) }, Run: runC06})
 	register(&Family{Name: "c07", Gen: func(seed uint64, tier string) *world.Scenario { return genCurves("c07", seed, true) }, Run: runC07})
 	register(&Family{Name: "c07loop", Gen: genC07Loop, Run: runC07Loop})
+	register(&Family{Name: "c07twin", Gen: genC07Twin, Run: runC07Twin})
 }
 
 var sensorExtremes = []float64{-1e300, -5e6, -273150, -1000, -1, 0, 1, 999, 1000, 1001, 19999, 20000, 20001, 49999.5, 50000, 79999, 80000, 80001, 150000, 1e9, 1e300}
@@ -514,4 +515,100 @@ func runC07Loop(t *testing.T, sc *world.Scenario) *check.Result {
 		}
 		return []Oracle{o}
 	})
+}
+
+// ---------------------------------------------------------------------------
+// C07 twin worlds: the same scenario (same seed, same initial fan state, same
+// schedule stream) is executed twice with constant temperatures T1 <= T2; at
+// every cycle index the curve value and the written PWM of the hotter world
+// must not be lower.
+
+func genC07Twin(seed uint64, tier string) *world.Scenario {
+	sc := genLoop("c07twin", seed, tier, loopOpts{kinds: []string{"hwmon", "hwmon", "file"}, directOnly: true, neverStopP: 0.3, maxFans: 1, horizonLo: 8, horizonHi: 12})
+	r := kernel.NewRand(seed, "c07twin.extra")
+	sc.TempWin = 1
+	sc.TempPoll = sc.Tick
+	sc.Faults = nil
+	f := &sc.Fans[0]
+	f.Plant.Stalls, f.Plant.NeverSpin, f.Plant.MinRpm = nil, false, 300
+	c1 := r.Range(0, 250)
+	c2 := c1 + kernel.Pick(r, 1, 1, 2, 5, 20, r.Range(1, 255-c1))
+	if c2 > 255 {
+		c2 = 255
+	}
+	sc.Params["t1"], sc.Params["t2"] = float64(tempForCurve(c1)), float64(tempForCurve(c2))
+	// the fan may happen to sit at a raw value that is numerically one of the map's inputs
+	m := mapInForce(f)
+	if r.Bool(0.6) {
+		// ... in particular at the input nearest to what the hotter world will request
+		lo, hi := refFanLimits(f, seededCurve(sc, f.ID))
+		req := lo + int(float64(c2)/255*float64(hi-lo))
+		if k := refmodel.Nearest(refmodel.SupportedInputs(m), req); len(k) > 0 {
+			f.Driver.InitPwm = world.Quantise(&f.Driver, k[0])
+		}
+	} else if r.Bool(0.5) {
+		keys := keysOfMap(m)
+		f.Driver.InitPwm = world.Quantise(&f.Driver, keys[r.Intn(len(keys))])
+	}
+	return sc
+}
+
+func keysOfMap(m map[int]int) []int {
+	var ks []int
+	for k := range m {
+		ks = append(ks, k)
+	}
+	sortInts(ks)
+	return ks
+}
+
+func runC07Twin(t *testing.T, sc *world.Scenario) *check.Result {
+	agg := check.NewResult(sc.Family, sc.Seed)
+	agg.ScHash = scHash(sc)
+	run := func(temp int) []*Cycle {
+		s2 := sc.Clone()
+		s2.Sensors[0].Prog = constTemp(temp)
+		var cycles []*Cycle
+		res := runL1(t, s2, func(st *stage.Stage, res *check.Result) []Oracle {
+			st.W.Sampler = cycleSampler(st)
+			o := &c07LoopOracle{ct: NewCycleTracker(st), res: res, prev: map[string]*Cycle{}, done: map[string]bool{}}
+			o.ct.OnCycle = func(c *Cycle) { cycles = append(cycles, c) }
+			return []Oracle{o}
+		})
+		agg.Events += res.Events
+		agg.VirtualSec += res.VirtualSec
+		agg.MultiCh += res.MultiCh
+		agg.Hash = mixHash(agg.Hash, res.Hash)
+		agg.Interleave = mixHash(agg.Interleave, res.Interleave)
+		if res.Harness != "" {
+			agg.Harness = res.Harness
+		}
+		return cycles
+	}
+	a, b := run(int(sc.Params["t1"])), run(int(sc.Params["t2"]))
+	f := &sc.Fans[0]
+	agg.Sample = fmt.Sprintf("c07twin seed=%d fan=%s map=%s limits=%s initPwm=%d T1=%v T2=%v", sc.Seed, f.Kind, mapKind(f), limitKind(f), f.Driver.InitPwm, sc.Params["t1"], sc.Params["t2"])
+	n := min(len(a), len(b))
+	for i := 0; i < n; i++ {
+		if a[i].After == nil || b[i].After == nil {
+			continue
+		}
+		agg.Probe("twin-cycles")
+		if a[i].After.CurveVal > b[i].After.CurveVal {
+			agg.Violate("C07", "curve-monotone-twin", "curve-monotone-twin", 0, nil, "cycle %d: curve value %d at the cooler temperature, %d at the hotter one", i, a[i].After.CurveVal, b[i].After.CurveVal)
+			break
+		}
+		if a[i].After.CurveVal < b[i].After.CurveVal {
+			agg.Probe("twin-curve-values-differ")
+		}
+		if a[i].After.Pwm > b[i].After.Pwm && a[i].After.Pwm >= 0 && b[i].After.Pwm >= 0 && a[i].After.Raises == 0 && b[i].After.Raises == 0 {
+			agg.Violate("C07", "pwm-monotone-twin", fmt.Sprintf("pwm-monotone-twin fan=%s map=%s", f.Kind, mapKind(f)), 0, nil,
+				"cycle %d, same initial state (raw PWM %d): the cooler world (curve %d) has PWM %d, the hotter world (curve %d) only %d", i, f.Driver.InitPwm, a[i].After.CurveVal, a[i].After.Pwm, b[i].After.CurveVal, b[i].After.Pwm)
+			break
+		}
+	}
+	agg.Reason = "twin"
+	agg.Nontrivial = agg.Probes["twin-cycles"] > 5
+	agg.State(fmt.Sprintf("%s|%s", mapKind(f), limitKind(f)))
+	return agg
 }
